@@ -169,11 +169,15 @@ class Unsupported(Exception):
     pass
 
 
-def branch_script(nodes):
-    """script atoms of a branch body; only plain steps / one trailing callback / one leading wait are supported"""
+def branch_script(nodes, prefix=None, ext=None):
+    """script atoms of a branch body; only plain steps / one trailing callback / one leading wait are supported.
+    prefix / ext: path prefix of the body's operations and the scenario's external outcomes (needed for invokes)"""
     atoms = []
+    pos = 0
     for n in nodes:
         k = n["k"]
+        if k != "log":
+            pos += 1
         if k == "step" and not n.get("fail") and n.get("sem") != "AMO":
             atoms.append("step")
         elif k == "step" and n.get("sem") != "AMO" and n.get("fail") and n.get("strategy") != "pkg":
@@ -202,6 +206,20 @@ def branch_script(nodes):
         elif k == "cb" and not n.get("between"):
             atoms.append("susp")
             return atoms
+        elif k == "invoke" and prefix is not None and "payload" not in n:
+            # a chained invoke parks on a timed suspension for "now" and is polled through the timer thread's refresh checkpoints until
+            # the backend reports its outcome: a tsusp with re-parks (the caller sets cf.lag); a failed call raises in the body
+            outcome = ((ext or {}).get(f"{prefix}{pos}") or ["SUCCEEDED"])[0]
+            atoms.append("tsusp")
+            atoms.append("@invoke")
+            if outcome != "SUCCEEDED" and not n.get("caught"):
+                atoms.append("fail")
+                return atoms
+        elif k == "child" and not (n.get("large") or n.get("caught") or n.get("raises") or n.get("summary") or n.get("uni") or n.get("ser_size")):
+            inner = branch_script(n.get("body", []), None if prefix is None else f"{prefix}{pos}/", ext)
+            if any(a in ("susp", "fail", "cin") for a in inner):
+                raise Unsupported("child body that fails, parks indefinitely or nests further")
+            atoms += ["cin"] + inner + ["cout"]
         elif k == "wait":
             atoms.append("tsusp")
         else:
@@ -249,14 +267,18 @@ def convert_inv(execution, inv_rec):
     eid = path_id(path)
     braise = set(int(x) for x in (node.get("braise") or []))
     scripts = []
+    has_invoke = False
     for bi, body in enumerate(node["branches"]):
-        a = branch_script(body)
+        a = branch_script(body, f"{path}/b{bi}/", execution.sc.get("ext") or {})
+        has_invoke = has_invoke or "@invoke" in a
+        a = [x for x in a if x != "@invoke"]
         if not (a and a[-1] in ("susp", "fail")):
             a.append("fail" if bi in braise else "ok")
         scripts.append(a)
     # (oversized item results change the payload of the branch context's SUCCEED - a summary with ReplayChildren - not the events)
     ctx_ids = {path_id(f"{path}/b{bi}"): bi + 1 for bi in range(len(scripts))}
     step_parent = {}
+    child_owner = {}
     thread_branch = {}
     seen_set = False
     pre = []
@@ -314,7 +336,7 @@ def convert_inv(execution, inv_rec):
                 raise Unsupported("nested executor")
             cfg = {"script": scripts, "maxc": x["maxc"], "mins": x["mins"], "tolc": x["tolc"], "tolp": x["tolp"],
                    "tfail": bool(execution.sc.get("faults") or execution.sc.get("faults_after_apply") or execution.sc.get("get_state_fault")),
-                   "lag": bool(execution.sc.get("timer_lag")),
+                   "lag": bool(execution.sc.get("timer_lag")) or has_invoke,
                    "pre": pre}
             started = True
             continue
@@ -340,6 +362,12 @@ def convert_inv(execution, inv_rec):
             par = x.get("parent")
             if par in ctx_ids:
                 step_parent[oid] = ctx_ids[par]
+            elif par in child_owner:
+                step_parent[oid] = child_owner[par]        # an operation inside a child context opened by the branch body
+            if x["typ"] == "CONTEXT" and oid in step_parent and not x["rejected"]:
+                child_owner[oid] = step_parent[oid]
+                out.append(ev("Ckpt", i=step_parent[oid], k="cin" if x["action"] == "START" else "cout", rej=False))
+                continue
             if x["rejected"] and oid not in step_parent and x.get("th") in thread_branch:
                 out.append(ev("Ckpt", i=thread_branch[x["th"]], k="?", rej=True))
                 continue
